@@ -48,9 +48,9 @@ impl SwiftField for Field90D {
         let mut remaining = input;
 
         // Parse number of transactions (5n)
-        if remaining.len() < 8 {
+        if remaining.len() < 5 {
             return Err(ParseError::InvalidFormat {
-                message: "Field90D requires at least 8 characters (5n + 3!a)".to_string(),
+                message: "Field90D requires at least 5 characters (5n + 3!a + 15d)".to_string(),
             });
         }
 
@@ -151,9 +151,9 @@ impl SwiftField for Field90C {
         let mut remaining = input;
 
         // Parse number of transactions (5n)
-        if remaining.len() < 8 {
+        if remaining.len() < 5 {
             return Err(ParseError::InvalidFormat {
-                message: "Field90C requires at least 8 characters (5n + 3!a)".to_string(),
+                message: "Field90C requires at least 5 characters (5n + 3!a + 15d)".to_string(),
             });
         }
 
